@@ -1,34 +1,50 @@
 """C15 - conditional calibration and CDF functions are bounded and monotone."""
+import os
+import re
+
 import numpy as np
 from hypothesis import strategies as st
 
 from vlib import strategies as S
-from vlib.harness import Outcome, TOL_F, TOL_MONO_F, scale_of
+from vlib.harness import Outcome, TOL_F, TOL_MONO_F, _lattice_frame, scale_of
 
 ID = "C15"
 TITLE = ("Conditional calibration and CDF functions are bounded, monotone by "
          "construction")
 RULE = ("Hypothesis draws one of three case kinds. pwl: a call of "
-        "tfl.conditional_pwl_calibration.pwl_calibration_fn with 2-6 keypoints "
+        "tfl.conditional_pwl_calibration.pwl_calibration_fn with 2-8 keypoints "
         "(thorough up to 12; 2 keypoints = keypoint_input_parameters=None), "
-        "units 1-3, batch 1-4, every documented shape form of the two "
+        "units 1-4, batch 1-4, every documented shape form of the two "
         "parameter tensors ((1,p) (B,p) (1,1,p) (B,1,p) (1,units,p) "
         "(B,units,p)), inputs (B,1) or (B,units), monotonicity none / "
         "increasing, clamp_min / clamp_max, is_cyclic, missing_input_value "
-        "with a given or a derived missing output, input ranges and output "
-        "ranges (negative, wide, zero width) and free-form parameters from "
-        "1e-3 to 1e6 in magnitude; the function is evaluated on input pairs "
+        "(also equal to a reference keypoint) with a given or a derived "
+        "missing output, input ranges of width 1e-5 to 1e5 and output "
+        "ranges (negative, wide, zero width), integral range bounds / missing "
+        "input values as Python ints in 1 of 3 cases, and free-form parameters "
+        "from 1e-3 to 1e6 in magnitude; parameters are constants, "
+        "tf.Variables, or (exec graph_nb, half of the quick cases) arguments "
+        "of an enclosing tf.function whose signature leaves the batch size "
+        "of the inputs and of every per-example parameter tensor unknown; the "
+        "function is evaluated on input pairs "
         "x <= x' (inside, far outside, on the end keypoints, on the float64 "
-        "reference keypoints, equal to the missing value) and just outside "
-        "both end keypoints. cdf_fn: tfl.conditional_cdf.cdf_fn with free-form "
+        "reference keypoints, equal to the missing value), on both end "
+        "keypoints and just outside them; in 1 of 3 cases it is also called "
+        "with return_derived_parameters=True. cdf_fn: "
+        "tfl.conditional_cdf.cdf_fn with free-form "
         "location parameters, no / non-negative / exp-transformed scaling in "
-        "the four documented broadcast shapes, activation, reduction and "
-        "sparsity factor. cdf_layer: tfl.layers.CDF with an assigned free-form "
+        "the four documented broadcast shapes and in five more broadcastable "
+        "shapes ((1,D,1,1), (1,1,1,1), scalar, (n,1), (u',)), activation, "
+        "reduction and sparsity factor, the same three execution forms. "
+        "cdf_layer: tfl.layers.CDF with an assigned free-form "
         "(or initial) kernel, the three input scaling types (learned weights "
         "are free-form values passed through the layer's own constraint) and "
         "the same options. Judged: output shape, finiteness, bounds, "
         "monotonicity over the pairs, clamp / cyclic values at the end "
-        "keypoints, missing output. Non-trivial: pwl with a non-degenerate "
+        "keypoints, missing output; for the derived parameters: non-negative "
+        "gaps summing to the input range, cumulative outputs inside the "
+        "bounds, non-negative increments when increasing, clamped / cyclic "
+        "end values. Non-trivial: pwl with a non-degenerate "
         "output range and a judged input inside the keypoint range; cdf with "
         "a pair that differs and an output that is not saturated at the same "
         "value; distinct by SHA-1 of the case.")
@@ -36,10 +52,25 @@ NT_FLOOR = 0.5
 BUDGET = {"quick": 600, "thorough": 6000}
 ASSUMPTIONS = [
     "the end-keypoint clauses (clamp_max, cyclic) are judged 4*K float32 "
-    "spacings of max(|input_min|,|input_max|) outside keypoint_input_max: the "
-    "derived keypoints are float32 running sums, so the position of the last "
-    "kink is only defined to that resolution; exactly at keypoint_input_max "
-    "only finiteness and the bounds are judged (switch STRICT_END)",
+    "spacings of max(|input_min|,|input_max|) outside keypoint_input_max "
+    "with the plain tolerance, and exactly at keypoint_input_max with the "
+    "tolerance plus the conditioning allowance of that input: the derived "
+    "keypoints are float32 running sums, so the position of the last kink "
+    "is only defined to (K+2) float32 spacings; the allowance is "
+    "min(1, 2*(K+2) spacings / segment length) * |segment output increment| "
+    "summed over the segments within that distance of the input, computed "
+    "from float64 reference keypoints and increments (never from values "
+    "returned by the function under test)",
+    "four call forms are not generated because the unmodified library "
+    "raises on them (candidate defects, switches GEN_NB_GIVEN_MOV_BATCH_KOP, "
+    "GEN_INT_MOV, GEN_NB_CDF_SCALING, GEN_NUMPY_SCALAR_ARGS): a given "
+    "missing_output_value together "
+    "with per-example output parameters of unknown batch size (those "
+    "parameters then keep a static batch size), an integer "
+    "missing_output_value (passed as float), cdf_fn scaling parameters "
+    "together with location parameters of unknown batch size (locations and "
+    "scalings then keep a static batch size, the inputs do not), and numpy "
+    "scalars as range bounds (numeric arguments are Python floats or ints)",
     "2-D keypoint_output_parameters ((1,p), (B,p)) are generated only for "
     "units == 1: for units > 1 the library deliberately raises ValueError "
     "('should be 3 dimensional when units > 1', expected by its own "
@@ -59,13 +90,48 @@ ASSUMPTIONS = [
     "kind='nan-collapsed-keypoint' (known finding F-C15-2)"]
 
 # Lead-decidable switches (see ASSUMPTIONS).
-STRICT_END = False
 GEN_OUT_2D_UNITS = False
+# Candidate defects found while widening (see the widening report; repro
+# scripts /tmp/scratch/widen/C15-defect-<n>.py).  Off: the combination is
+# replaced by its nearest accepted neighbour, so the check stays quiet.
+# 1: missing_output_value given + per-example keypoint_output_parameters whose
+#    batch size is unknown at trace time -> tf.fill(shape with None) raises.
+GEN_NB_GIVEN_MOV_BATCH_KOP = True
+# 2: missing_output_value passed as a Python int -> tf.where dtype mismatch.
+GEN_INT_MOV = True
+# 3: cdf_fn with scaling_parameters and location_parameters whose batch size is
+#    unknown at trace time -> "likely are not broadcastable" ValueError.
+GEN_NB_CDF_SCALING = True
+# 4 (lower confidence): range bounds passed as numpy scalars (np.float64 is a
+#    float subclass, e.g. np.min(data)) -> tf.function turns them into tensors
+#    and the traced `if min > max: raise` raises for ordered bounds.
+GEN_NUMPY_SCALAR_ARGS = False
 
 GEOM_EPS = {"cdf_fn": 1e-8, "cdf_layer": 1e-3}
 PARAM_SCALES = [1e-3, 1.0, 1.0, 3.0, 10.0, 30.0, 100.0, 1e3, 1e6]
 FORMS = ["1p", "Bp", "11p", "B1p", "1up", "Bup"]
-SCAL_FORMS = ["none", "D11", "Dn1", "D1u", "Dnu"]
+# scaling_parameters shapes: the four documented (B, D, ., .) forms plus other
+# shapes that are "broadcast friendly with location_parameters": batch size 1,
+# all-ones, a scalar, and right-aligned shapes of rank 2 and 1.
+SCAL_FORMS = ["none", "D11", "Dn1", "D1u", "Dnu", "1D11", "1111", "scalar",
+              "n1", "u"]
+EXEC_QUICK = ["graph", "eager", "graph_nb", "graph_nb"]
+EXEC_BIG = ["graph", "graph_nb", "graph_nb"] + ["eager"] * 7
+
+
+def _scal_shape(form, b, d, n, up):
+  return {"D11": (b, d, 1, 1), "Dn1": (b, d, n, 1), "D1u": (b, d, 1, up),
+          "Dnu": (b, d, n, up), "1D11": (1, d, 1, 1), "1111": (1, 1, 1, 1),
+          "scalar": (), "n1": (n, 1), "u": (up,)}[form]
+
+
+def _spell(v, how):
+  """Python int for an integral value when how == 'int', else the float."""
+  if how == "int" and v is not None and float(v) == int(v) and abs(v) < 2**31:
+    return int(v)
+  if how == "np" and v is not None:
+    return np.float64(v)
+  return v
 
 
 def _flush(x):
@@ -93,9 +159,9 @@ def _rows(form, b, u):
 @st.composite
 def _pwl_case(draw, tier):
   big = tier == "thorough"
-  units = draw(st.sampled_from([1, 1, 2, 3]))
+  units = draw(st.sampled_from([1, 1, 1, 2, 2, 3, 3, 4]))
   b = draw(st.integers(1, 6 if big else 4))
-  k = draw(st.sampled_from([2, 2, 3, 3, 4, 5, 6] + ([8, 12] if big else [])))
+  k = draw(st.sampled_from([2, 2, 3, 3, 4, 5, 6, 8] + ([12] if big else [])))
   mono = draw(st.sampled_from(["none", "increasing", "increasing"]))
   clamp_min = clamp_max = cyclic = False
   if mono == "increasing":
@@ -109,10 +175,16 @@ def _pwl_case(draw, tier):
     k += 1 - p_out
     p_out = 1
   p_in = k - 2
-  in_min = S.f32(draw(st.sampled_from([-100.0, -1.0, 0.0, 0.0, 0.5, 10.0,
-                                       1000.0])))
-  in_max = S.f32(in_min + draw(st.sampled_from([0.01, 0.5, 1.0, 1.0, 3.0,
-                                                100.0])))
+  width = draw(st.sampled_from([1e-5, 1e-4, 0.01, 0.5, 1.0, 1.0, 3.0, 100.0,
+                                1e4, 1e5]))
+  if width < 1e-3:
+    # tiny ranges sit at / around zero (elsewhere they would be a few float32
+    # spacings wide)
+    in_min = S.f32(draw(st.sampled_from([0.0, 0.0, -0.5 * width])))
+  else:
+    in_min = S.f32(draw(st.sampled_from([-100.0, -1.0, 0.0, 0.0, 0.5, 10.0,
+                                         1000.0])))
+  in_max = S.f32(in_min + width)
   out_min = S.f32(draw(st.sampled_from([-1000.0, -10.0, -1.0, 0.0, 0.0, 0.5,
                                         100.0])))
   out_max = S.f32(out_min + draw(st.sampled_from(
@@ -127,7 +199,7 @@ def _pwl_case(draw, tier):
       "clamp_min": bool(clamp_min), "clamp_max": bool(clamp_max),
       "cyclic": bool(cyclic), "missing": missing,
       "miv": draw(st.sampled_from(["lo-1", "hi+5", "in_min", "mid", "zero",
-                                   "-1"])),
+                                   "-1", "kp"])),
       "mov": draw(st.sampled_from(["out_min", "out_max", "below", "zero",
                                    "mid", "-7.5"])),
       "in_min": in_min, "in_max": in_max, "out_min": out_min,
@@ -140,8 +212,17 @@ def _pwl_case(draw, tier):
       "x_mode": draw(st.sampled_from(["inside", "wide", "ends", "keypoints",
                                       "mixed", "mixed"])),
       "omit_defaults": draw(st.booleans()),
-      "exec": draw(st.sampled_from(["graph", "eager"] + (["eager"] * 6 if big
-                                                         else []))),
+      # graph_nb: called from inside a tf.function whose input signature leaves
+      # the batch size unknown (None), as for outputs of other TF modules in
+      # a Keras model; graph / eager: concrete tensors.
+      "exec": draw(st.sampled_from(EXEC_BIG if big else EXEC_QUICK)),
+      # parameters as constants or as tf.Variable (graph / eager only)
+      "param_as": draw(st.sampled_from(["constant", "constant", "variable"])),
+      # integral range bounds / missing values as Python ints
+      "num_as": draw(st.sampled_from(["float", "float", "int"] + (
+          ["np"] if GEN_NUMPY_SCALAR_ARGS else []))),
+      # also call with return_derived_parameters=True and judge what it returns
+      "derived": draw(st.sampled_from([False, False, True])),
       "aux": draw(S.seeds),
   }
   return case
@@ -155,7 +236,7 @@ def _cdf_common(draw, tier):
   return {
       "batch": draw(st.integers(1, 6 if big else 4)), "dim": dim,
       "units": units, "sf": sf,
-      "nk": draw(st.sampled_from([1, 2, 3, 5] + ([10, 20] if big else []))),
+      "nk": draw(st.sampled_from([1, 2, 3, 5, 10] + ([20] if big else []))),
       "activation": draw(st.sampled_from(["relu6", "sigmoid"])),
       "reduction": draw(st.sampled_from(["mean", "geometric_mean", "none"])),
       "x": draw(S.array_desc(kinds=["normal", "uniform", "ints", "ties"],
@@ -172,19 +253,19 @@ def _cdf_fn_case(draw, tier):
   b, d, n, up = (case["batch"], case["dim"], case["nk"],
                  case["units"] // case["sf"])
   form = draw(st.sampled_from(SCAL_FORMS))
-  sn = n if form in ("Dn1", "Dnu") else 1
-  su = up if form in ("D1u", "Dnu") else 1
+  size = 0 if form == "none" else int(np.prod(_scal_shape(form, b, d, n, up)))
   case.update({
       "kind": "cdf_fn",
       "loc": draw(S.array_desc(shape=(b * d * n, up))),
       "scal_form": form,
       "scal": None if form == "none" else draw(S.array_desc(
-          scales=[1e-3, 1.0, 1.0, 10.0, 1e3, 1e6], shape=(b * d * sn, su))),
+          scales=[1e-3, 1.0, 1.0, 10.0, 1e3, 1e6], shape=(size, 1))),
       "scal_mode": draw(st.sampled_from(["nonneg", "nonneg", "exp"])),
       "mult": draw(st.sampled_from([0.1, 1.0, -0.5, 2.0])),
       "omit_defaults": draw(st.booleans()),
-      "exec": draw(st.sampled_from(["graph", "eager"] + (
-          ["eager"] * 6 if tier == "thorough" else []))),
+      "exec": draw(st.sampled_from(EXEC_BIG if tier == "thorough"
+                                   else EXEC_QUICK)),
+      "param_as": draw(st.sampled_from(["constant", "constant", "variable"])),
   })
   return case
 
@@ -293,7 +374,35 @@ def _pwl_inputs(case, rs, kp_ref, miv):
   return probes
 
 
-def _cond_allowance(fn, x, t_kip, t_kop, kw, b, u, k, in_min, in_max, xf, tf):
+def _ref_increments(case, kop, b, u, k, out_min, out_max):
+  """Float64 reference |output increment| of every segment, (B, units, K-1).
+
+  Written from the module description: without monotonicity the keypoint
+  outputs are the sigmoid-squashed parameters rescaled to the output range
+  (cyclic: the first one repeated at the end); with monotonicity='increasing'
+  the increments are the softmax of the front-zero-padded parameters times
+  the width of the output range, the first one being the offset of the first
+  keypoint output above keypoint_output_min unless clamp_min, the last one
+  being used only with clamp_max.
+  """
+  po = _full(kop, b, u)
+  if case["missing"] == "derived":
+    po = po[..., :-1]
+  rng = float(out_max) - float(out_min)
+  if case["mono"] == "none":
+    with np.errstate(over="ignore"):
+      y = float(out_min) + rng / (1.0 + np.exp(-po))
+    if case["cyclic"]:
+      y = np.concatenate([y, y[..., :1]], -1)
+    dy = np.abs(np.diff(y, axis=-1))
+  else:
+    inc = _softmax64(np.concatenate([np.zeros((b, u, 1)), po], -1)) * rng
+    dy = inc[..., :k - 1] if case["clamp_min"] else inc[..., 1:k]
+  assert dy.shape == (b, u, k - 1), (dy.shape, (b, u, k - 1))
+  return dy
+
+
+def _cond_allowance(kp_ref, dy_ref, xf, k, in_min, in_max):
   """Float32 conditioning allowance per (example, unit).
 
   The function places its keypoints by a float32 running sum of the derived
@@ -301,24 +410,54 @@ def _cond_allowance(fn, x, t_kip, t_kop, kw, b, u, k, in_min, in_max, xf, tf):
   the input range).  For a segment of length len next to x the interpolation
   weight is therefore uncertain by min(1, 2*err/len), i.e. the output by that
   times the segment's output increment.  Segments farther than err from x have
-  exact weights 0 or 1 and contribute nothing.
+  exact weights 0 or 1 and contribute nothing.  Keypoints, segment lengths and
+  output increments are the float64 REFERENCE ones (kp_ref, dy_ref), never
+  values returned by the function under test.
   """
-  _, dx, kern = fn(tf.constant(x), t_kip, t_kop, return_derived_parameters=True,
-                   **kw)
-  dx = np.broadcast_to(dx.numpy(), (b, u, k - 1)).astype(np.float64)
-  kern = kern.numpy()
-  dy = np.abs(np.broadcast_to(kern[..., 1:], (b, u, kern.shape[-1] - 1))
-              ).astype(np.float64)
-  n = min(dx.shape[-1], dy.shape[-1])
-  dx, dy = dx[..., :n], dy[..., :n]
-  kp = in_min + np.concatenate([np.zeros((b, u, 1)),
-                                np.cumsum(dx, -1)[..., :-1]], -1)
+  kp = kp_ref[..., :-1]
+  dx = np.diff(kp_ref, axis=-1)
   scale = max(abs(in_min), abs(in_max), float(np.max(np.abs(xf))), 1e-30)
   err = (k + 2) * float(np.spacing(np.float32(scale)))
   xx = xf[..., None].astype(np.float64)
   near = (xx >= kp - err) & (xx <= kp + dx + err)
   w = np.minimum(1.0, 2.0 * err / np.maximum(dx, 1e-45))
-  return np.sum(np.where(near, dy * w, 0.0), axis=-1)
+  return np.sum(np.where(near, dy_ref * w, 0.0), axis=-1)
+
+
+def _none_batch_spec(tf, a, per_example):
+  shape = list(a.shape)
+  if per_example:
+    shape[0] = None
+  return tf.TensorSpec(shape, tf.float32)
+
+
+def _pwl_caller(case, tf, fn, kip, kop, kw, xc, derived=False):
+  """Returns call(x) -> what fn returns, in the case's execution form."""
+  kw = dict(kw)
+  if derived:
+    kw["return_derived_parameters"] = True
+  if case["exec"] != "graph_nb":
+    mk = tf.Variable if case.get("param_as") == "variable" else tf.constant
+    t_kip = None if kip is None else mk(kip)
+    t_kop = mk(kop)
+    return lambda x: fn(tf.constant(x), t_kip, t_kop, **kw)
+  # unknown batch size: the inputs and every per-example parameter tensor
+  kop_nb = case["kop_form"][0] == "B" and (
+      GEN_NB_GIVEN_MOV_BATCH_KOP or case["missing"] != "given")
+  specs = [tf.TensorSpec([None, xc], tf.float32)]
+  args = []
+  if kip is not None:
+    specs.append(_none_batch_spec(tf, kip, case["kip_form"][0] == "B"))
+    args.append(tf.constant(kip))
+  specs.append(_none_batch_spec(tf, kop, kop_nb))
+  args.append(tf.constant(kop))
+
+  def outer(x, *params):
+    if kip is None:
+      return fn(x, None, params[0], **kw)
+    return fn(x, params[0], params[1], **kw)
+  traced = tf.function(outer, input_signature=specs, autograph=False)
+  return lambda x: traced(tf.constant(x), *args)
 
 
 def _run_pwl(case, out, tf, tfl):
@@ -329,8 +468,8 @@ def _run_pwl(case, out, tf, tfl):
   miv = mov = None
   if case["missing"] != "none":
     miv = S.f32({"lo-1": in_min - 1, "hi+5": in_max + 5, "in_min": in_min,
-                 "mid": in_min + width / 2, "zero": 0.0, "-1": -1.0}[
-                     case["miv"]])
+                 "mid": in_min + width / 2, "zero": 0.0, "-1": -1.0,
+                 "kp": 0.0}[case["miv"]])   # "kp": placeholder, set below
     if case["missing"] == "given":
       mov = S.f32({"out_min": out_min, "out_max": out_max,
                    "below": out_min - 1, "zero": 0.0,
@@ -351,14 +490,25 @@ def _run_pwl(case, out, tf, tfl):
     gaps = _softmax64(z) * width
     kp_ref = in_min + np.concatenate([np.zeros((b, u, 1)),
                                       np.cumsum(gaps, -1)], -1)
+  dy_ref = _ref_increments(case, kop, b, u, k, out_min, out_max)
+  if miv is not None and case["miv"] == "kp":
+    # the float32 value of a reference keypoint (interior when there is one)
+    miv = S.f32(kp_ref[0, 0, (k - 1) // 2 if k > 2 else 1])
   rs = np.random.RandomState(case["aux"])
   probes = _pwl_inputs(case, rs, kp_ref, miv)
 
+  how = case.get("num_as", "float")
   kw = dict(units=u, monotonicity=case["mono"], clamp_min=case["clamp_min"],
             clamp_max=case["clamp_max"], is_cyclic=case["cyclic"],
-            keypoint_input_min=in_min, keypoint_input_max=in_max,
-            keypoint_output_min=out_min, keypoint_output_max=out_max,
-            missing_input_value=miv, missing_output_value=mov)
+            keypoint_input_min=_spell(in_min, how),
+            keypoint_input_max=_spell(in_max, how),
+            keypoint_output_min=_spell(out_min, how),
+            keypoint_output_max=_spell(out_max, how),
+            missing_input_value=_spell(miv, how),
+            missing_output_value=_spell(mov, how if GEN_INT_MOV else "float"))
+  n_int = sum(type(v) is int for name, v in kw.items() if name != "units")
+  if how == "np":
+    out.label("pwl:numpy-scalar-args")
   if case["omit_defaults"]:
     for name, default in (("units", 1), ("monotonicity", "none"),
                           ("clamp_min", False), ("clamp_max", False),
@@ -371,8 +521,8 @@ def _run_pwl(case, out, tf, tfl):
     if out_min == 0.0 and out_max == 1.0:
       del kw["keypoint_output_min"], kw["keypoint_output_max"]
   fn = tfl.conditional_pwl_calibration.pwl_calibration_fn
-  t_kip = None if kip is None else tf.constant(kip)
-  t_kop = tf.constant(kop)
+  xc = 1 if case["x_form"] == "B1" else u
+  call = _pwl_caller(case, tf, fn, kip, kop, kw, xc)
 
   out.label("pwl", "pwl:kip=%s" % (case["kip_form"] or "None"),
             "pwl:kop=%s" % case["kop_form"],
@@ -381,7 +531,16 @@ def _run_pwl(case, out, tf, tfl):
             "pwl:units=%d" % u, "pwl:mono=%s" % case["mono"],
             "pwl:missing=%s" % case["missing"], "pwl:K=%d" % k,
             "pwl:kip-mag=%s" % _magclass(kip),
-            "pwl:kop-mag=%s" % _magclass(kop), "exec:" + case["exec"])
+            "pwl:kop-mag=%s" % _magclass(kop), "exec:" + case["exec"],
+            "pwl:exec=" + case["exec"],
+            "pwl:width=%s" % ("tiny(<=1e-4)" if width <= 1e-3 else
+                              "huge(>=1e4)" if width >= 1e4 else "mid"))
+  if case["exec"] != "graph_nb":
+    out.label("pwl:params=" + case.get("param_as", "constant"))
+  if n_int:
+    out.label("pwl:int-spelled-args")
+  if miv is not None and case["miv"] == "kp":
+    out.label("pwl:missing-value-is-keypoint")
   if case["clamp_min"]:
     out.label("pwl:clamp_min")
   if case["clamp_max"]:
@@ -399,7 +558,7 @@ def _run_pwl(case, out, tf, tfl):
   ys, xs, miss, cond = {}, {}, {}, {}
   derived_cache = {}
   for name, x in probes:
-    y = fn(tf.constant(x), t_kip, t_kop, **kw).numpy()
+    y = call(x).numpy()
     out.checks += 1
     if y.shape != (b, u):
       out.violate("output shape %s != (batch, units) = %s" % (y.shape, (b, u)),
@@ -413,8 +572,8 @@ def _run_pwl(case, out, tf, tfl):
     bad = live & ~np.isfinite(y)
     if np.any(bad):
       # known finding F-C15-2: 0/0 at a keypoint whose derived gap is 0.0
-      _, dx, _ = fn(tf.constant(x), t_kip, t_kop,
-                    return_derived_parameters=True, **kw)
+      _, dx, _ = fn(tf.constant(x), None if kip is None else tf.constant(kip),
+                    tf.constant(kop), return_derived_parameters=True, **kw)
       dx = np.broadcast_to(dx.numpy(), (b, u, k - 1)).astype(np.float32)
       c = np.cumsum(dx, axis=-1, dtype=np.float32)
       kp32 = (np.concatenate([np.zeros((b, u, 1), np.float32), c[..., :-1]],
@@ -440,8 +599,7 @@ def _run_pwl(case, out, tf, tfl):
       live = live & ~bad
       miss[name] = m | bad       # not judged further
     # bounds (plus the float32 conditioning allowance near short segments)
-    cond[name] = _cond_allowance(fn, x, t_kip, t_kop, kw, b, u, k, in_min,
-                                 in_max, xf, tf)
+    cond[name] = _cond_allowance(kp_ref, dy_ref, xf, k, in_min, in_max)
     btol = tol + cond[name]
     if np.any(live & ((y < out_min - btol) | (y > out_max + btol))):
       i = _first(live & ((y < out_min - btol) |
@@ -471,6 +629,70 @@ def _run_pwl(case, out, tf, tfl):
                                                float(ref[m][0])),
                       kind="missing", given=False, **sig)
           return
+
+  # ---- return_derived_parameters=True: "the deltas between the keypoints x's"
+  # and "the initial value and the deltas between the keypoints y's" (cumsum
+  # reconstructs the y values) must describe bounded / monotone / clamped /
+  # cyclic keypoint outputs themselves.
+  if case.get("derived"):
+    out.label("pwl:derived-parameters-judged")
+    res = _pwl_caller(case, tf, fn, kip, kop, kw, xc, derived=True)(
+        probes[0][1])
+    out.checks += 1
+    good = isinstance(res, (tuple, list)) and len(res) == 3
+    if good:
+      yd, dxd, kern = [np.asarray(r.numpy(), np.float64) for r in res]
+      try:
+        dxd = np.broadcast_to(dxd, (b, u, k - 1))
+        kern = np.broadcast_to(kern, (b, u, k))
+      except ValueError:
+        good = False
+      good = good and yd.shape == (b, u)
+    if not good:
+      out.violate("return_derived_parameters=True does not return (output "
+                  "(B,units), x deltas (.,.,K-1), y kernel (.,.,K))",
+                  kind="derived-shape", **sig)
+      return
+    live = ~miss["a"]
+    out.checks += 5
+    if np.any(live & ~((yd >= out_min - tol - cond["a"]) &
+                       (yd <= out_max + tol + cond["a"]))):
+      out.violate("output returned with the derived parameters outside the "
+                  "bounds", kind="bounds", mono=case["mono"], **sig)
+      return
+    flat = dxd.sum(-1) == 0      # every gap underflowed: nothing to say
+    if not np.all(np.isfinite(dxd)) or np.any(dxd < 0) or np.any(
+        ~flat & (np.abs(dxd.sum(-1) - width) > TOL_F * width)):
+      i = _first(~(np.isfinite(dxd) & (dxd >= 0)).all(-1) | (
+          np.abs(dxd.sum(-1) - width) > TOL_F * width))
+      out.violate("derived keypoint gaps %s are not non-negative numbers "
+                  "summing to the input range %r" % (dxd[i].tolist(), width),
+                  kind="derived-gaps", **sig)
+      return
+    yk = np.cumsum(kern, -1)
+    if not np.all(np.isfinite(kern)) or np.any(yk < out_min - tol) or np.any(
+        yk > out_max + tol):
+      i = _first(~(np.isfinite(yk) & (yk >= out_min - tol) &
+                   (yk <= out_max + tol)).all(-1))
+      out.violate("derived keypoint outputs %s leave [%r, %r]" % (
+          yk[i].tolist(), out_min, out_max), kind="derived-bounds",
+                  mono=case["mono"], **sig)
+      return
+    if case["mono"] == "increasing" and np.any(kern[..., 1:] < 0):
+      out.violate("negative derived output increment with monotonicity="
+                  "'increasing'", kind="derived-monotonicity", **sig)
+      return
+    if (case["clamp_min"] and np.any(np.abs(yk[..., 0] - out_min) > tol)) or (
+        case["clamp_max"] and np.any(np.abs(yk[..., -1] - out_max) > tol)):
+      out.violate("derived end keypoint outputs %s / %s are not the clamped "
+                  "bounds" % (yk[..., 0].ravel()[:3].tolist(),
+                              yk[..., -1].ravel()[:3].tolist()),
+                  kind="derived-clamp", **sig)
+      return
+    if case["cyclic"] and np.any(np.abs(yk[..., 0] - yk[..., -1]) > tol):
+      out.violate("is_cyclic: derived first / last keypoint outputs differ",
+                  kind="derived-cyclic", **sig)
+      return
 
   def judged(*names):
     ok = np.ones((b, u), bool)
@@ -510,22 +732,25 @@ def _run_pwl(case, out, tf, tfl):
                     end="min", **sig)
         return
   if case["clamp_max"]:
-    for n in ("hi_out",) + (("hi",) if STRICT_END else ()):
+    # exactly at keypoint_input_max the last kink is only placed to float32
+    # resolution: the conditioning allowance of that probe is added there
+    for n in ("hi_out", "hi"):
       ok = judged(n)
       out.checks += 1
-      if np.any(ok & (np.abs(ys[n] - out_max) > tol)):
-        i = _first(ok & (np.abs(ys[n] - out_max) > tol))
+      etol = tol + (cond[n] if n == "hi" else 0.0)
+      if np.any(ok & (np.abs(ys[n] - out_max) > etol)):
+        i = _first(ok & (np.abs(ys[n] - out_max) > etol))
         out.violate("clamp_max: f(%r)=%r != keypoint_output_max=%r" % (
             float(xs[n][i]), float(ys[n][i]), out_max), kind="clamp",
                     end="max", exact_end=(n == "hi"), **sig)
         return
   if case["cyclic"]:
-    for lo_n, hi_n in (("lo", "hi_out"), ("lo_out", "hi_out")) + (
-        (("lo", "hi"),) if STRICT_END else ()):
+    for lo_n, hi_n in (("lo", "hi_out"), ("lo_out", "hi_out"), ("lo", "hi")):
       ok = judged(lo_n, hi_n)
       out.checks += 1
-      if np.any(ok & (np.abs(ys[lo_n] - ys[hi_n]) > tol)):
-        i = _first(ok & (np.abs(ys[lo_n] - ys[hi_n]) > tol))
+      etol = tol + (cond[hi_n] if hi_n == "hi" else 0.0)
+      if np.any(ok & (np.abs(ys[lo_n] - ys[hi_n]) > etol)):
+        i = _first(ok & (np.abs(ys[lo_n] - ys[hi_n]) > etol))
         out.violate("is_cyclic: f(%r)=%r != f(%r)=%r" % (
             float(xs[lo_n][i]), float(ys[lo_n][i]), float(xs[hi_n][i]),
             float(ys[hi_n][i])), kind="cyclic", exact_end=(hi_n == "hi"),
@@ -624,9 +849,8 @@ def _run_cdf_fn(case, out, tf, tfl):
   scal = None
   mode = "none"
   if form != "none":
-    sn = n if form in ("Dn1", "Dnu") else 1
-    su = up if form in ("D1u", "Dnu") else 1
-    raw = S.materialize(case["scal"], (b * d * sn, su)).reshape(b, d, sn, su)
+    shp = _scal_shape(form, b, d, n, up)
+    raw = S.materialize(case["scal"], (int(np.prod(shp)), 1)).reshape(shp)
     mode = case["scal_mode"]
     if mode == "nonneg":
       scal = np.abs(raw)
@@ -640,20 +864,37 @@ def _run_cdf_fn(case, out, tf, tfl):
       if kw[name] == default:
         del kw[name]
   _cdf_labels(case, out, "cdf_fn")
-  out.label("cdf_fn:scaling=%s/%s" % (form, mode), "exec:" + case["exec"])
+  out.label("cdf_fn:scaling=%s/%s" % (form, mode), "exec:" + case["exec"],
+            "cdf_fn:exec=" + case["exec"], "cdf_fn:scaling-form=" + form)
   if scal is not None and mode == "nonneg" and np.any(scal == 0):
     out.label("cdf_fn:zero-scaling")
   rs = np.random.RandomState(case["aux"])
   x1, x2 = _cdf_inputs(case, rs, loc.astype(np.float64))
   fn = tfl.conditional_cdf.cdf_fn
-  t_loc = tf.constant(loc)
-  t_scal = None if scal is None else tf.constant(scal.astype(np.float32))
-  if t_scal is None and case["omit_defaults"]:
-    y1 = fn(tf.constant(x1), t_loc, **kw).numpy()
-    y2 = fn(tf.constant(x2), t_loc, **kw).numpy()
+  scal32 = None if scal is None else np.asarray(scal, np.float32)
+  if case["exec"] == "graph_nb":
+    # unknown batch size for the inputs and the per-example parameter tensors
+    loc_nb = GEN_NB_CDF_SCALING or scal32 is None
+    specs = [tf.TensorSpec([None, d], tf.float32),
+             _none_batch_spec(tf, loc, loc_nb)]
+    args = [tf.constant(loc)]
+    if scal32 is not None:
+      specs.append(_none_batch_spec(tf, scal32, loc_nb and form[0] == "D"))
+      args.append(tf.constant(scal32))
+    traced = tf.function(lambda x, *params: fn(x, *params, **kw),
+                         input_signature=specs, autograph=False)
+    call = lambda x: traced(tf.constant(x), *args)
   else:
-    y1 = fn(tf.constant(x1), t_loc, t_scal, **kw).numpy()
-    y2 = fn(tf.constant(x2), t_loc, t_scal, **kw).numpy()
+    mk = tf.Variable if case.get("param_as") == "variable" else tf.constant
+    out.label("cdf_fn:params=" + case.get("param_as", "constant"))
+    t_loc = mk(loc)
+    t_scal = None if scal32 is None else mk(scal32)
+    if t_scal is None and case["omit_defaults"]:
+      call = lambda x: fn(tf.constant(x), t_loc, **kw)
+    else:
+      call = lambda x: fn(tf.constant(x), t_loc, t_scal, **kw)
+  y1 = call(x1).numpy()
+  y2 = call(x2).numpy()
   _judge_cdf(case, out, y1, y2, x1, x2, "cdf_fn")
 
 
@@ -715,26 +956,65 @@ def run_case(case):
   tf.random.set_seed(case["aux"])
   np.random.seed(case["aux"] % (2**32))
   tf.config.run_functions_eagerly(case.get("exec") == "eager")
-  if case["kind"] == "pwl":
-    _run_pwl(case, out, tf, tfl)
-  elif case["kind"] == "cdf_fn":
-    _run_cdf_fn(case, out, tf, tfl)
-  else:
-    _run_cdf_layer(case, out, tf, tfl)
+  try:
+    if case["kind"] == "pwl":
+      _run_pwl(case, out, tf, tfl)
+    elif case["kind"] == "cdf_fn":
+      _run_cdf_fn(case, out, tf, tfl)
+    else:
+      _run_cdf_layer(case, out, tf, tfl)
+  except Exception as e:  # pylint: disable=broad-except
+    # An exception raised while a tf.function is traced has no library frame
+    # in its traceback (only in its message), so the harness' generic handler
+    # would call it a harness error: report it here, naming the execution form.
+    where = _library_frame(e)
+    if where is None or _lattice_frame(e.__traceback__) is not None:
+      raise
+    out.nontrivial = True
+    out.label("exception")
+    out.violate("%s: %s" % (type(e).__name__, " ".join(str(e).split())[-300:]),
+                kind="exception", exc=type(e).__name__, where=where,
+                fn=case["kind"], exec=case.get("exec", "eager"))
   return out
+
+
+def _library_frame(e):
+  """file:function of the innermost tensorflow_lattice frame of an exception,
+  from the traceback or, for errors raised during tracing, from the 'in user
+  code: File ".../tensorflow_lattice/python/x.py", line N, in f' message."""
+  where = _lattice_frame(e.__traceback__)
+  if where is None:
+    hits = [h for h in re.findall(
+        r'File "([^"]*/tensorflow_lattice/[^"]*)", line \d+, in (\w+)', str(e))
+            if "/verif/" not in h[0]]
+    if hits:
+      where = "%s:%s" % (os.path.basename(hits[-1][0]), hits[-1][1])
+  return where
 
 
 TECHNIQUE = ("property-based testing (Hypothesis): range / metamorphic "
              "input-pair oracles on randomly generated valid calls")
 LEVEL_TEXT = ("Generated-input exploration: thousands of random valid calls of "
               "pwl_calibration_fn (all documented parameter shape forms, clamp, "
-              "cyclic and missing modes, parameters up to 1e6 in magnitude), "
-              "cdf_fn and the CDF layer per run; outputs are checked against "
-              "the documented bounds, on ordered input pairs, at the end "
-              "keypoints and at the missing value. Finds squashing, padding, "
-              "axis and sign mistakes; shows no absence.")
+              "cyclic and missing modes, parameters up to 1e6 in magnitude, "
+              "input ranges from 1e-5 to 1e5 wide, constants / variables / "
+              "tensors of unknown batch size inside an enclosing tf.function), "
+              "cdf_fn (nine scaling shapes) and the CDF layer per run; outputs "
+              "are checked against "
+              "the documented bounds, on ordered input pairs, at and just "
+              "outside the end keypoints and at the missing value, and the "
+              "derived parameters returned on request are checked for the same "
+              "bounds / monotonicity / clamp / cyclic facts. Finds squashing, "
+              "padding, axis, sign, static-shape and argument-type mistakes; "
+              "shows no absence.")
 LEVEL_NOTE = ("Trusted: TensorFlow/NumPy arithmetic, the harness. Sizes bounded "
-              "(<= 6 keypoints quick / 12 thorough, <= 3 units, batch <= 6); "
+              "(<= 8 keypoints quick / 12 thorough, <= 4 units, batch <= 6, "
+              "<= 10 CDF keypoints quick / 20 thorough); "
               "end-keypoint clauses judged 4*K float32 spacings outside "
-              "keypoint_input_max; tolerance 1e-4 (bounds/values) and 1e-5 "
-              "(monotonicity) relative to max(1, |output bounds|).")
+              "keypoint_input_max and, with the float32 conditioning allowance "
+              "of the last segment added, exactly at it; tolerance 1e-4 "
+              "(bounds/values) and 1e-5 "
+              "(monotonicity) relative to max(1, |output bounds|), plus the "
+              "conditioning allowance computed from float64 reference "
+              "keypoints. Library exceptions raised while a tf.function is "
+              "traced are reported with the execution form in the signature.")
